@@ -27,7 +27,7 @@ def run(d):
             res = {}
             for p in claimed:
                 rr = subprocess.run([os.path.join(V, 'check'), p, '--repo', tmp + '/repo', '--no-evidence'], stdout=subprocess.PIPE, stderr=subprocess.STDOUT, text=True, env=env)
-                res[p] = {'exit': rr.returncode, 'keys': re.findall(r'^  key    (\S+)', rr.stdout, re.M)[:5]}
+                res[p] = {'exit': rr.returncode if not (rr.returncode == 1 and 'VIOLATION property=' not in rr.stdout) else 3, 'keys': re.findall(r'^  key    (\S+)', rr.stdout, re.M)[:5]}
             return sid, res
         finally:
             shutil.rmtree(tmp, ignore_errors=True)
